@@ -54,9 +54,14 @@ package yoda
 //@ func GetDataSourceHash
 //@ trusted
 //@ modifies RPCok
+// C19 "never crashes on a request": the key a handler signs with is always one of the configured keys, whatever other
+// handlers do to the shared round-robin counter at the same time (thread-modular: between any two of this goroutine's
+// steps the counter may have been advanced by others; it starts at -1 and only grows)
 //@ func (c *Context) nextKeyIndex
-//@ trusted
+//@ modifies c
+//@ requires len(c.keys) > 0 && c.keyRoundRobinIndex >= -1
 //@ ensures 0 <= result && result < len(c.keys)
+//@ ensures c == with(old(c), "keyRoundRobinIndex", c.keyRoundRobinIndex) && c.keyRoundRobinIndex >= old(c.keyRoundRobinIndex)
 
 // C19: a request that does not list this validator is skipped without queuing anything; otherwise AT MOST one
 // report is queued, and the queued report is for this request id, from this validator, with exactly one raw
@@ -66,7 +71,7 @@ package yoda
 //@ func handleRequest
 //@ counts id
 //@ modifies ChanSent, ChanLast, ChanRecv, ChanLastMsg, RPCok
-//@ requires ChanRecv <= ChanSent && len(c.keys) > 0
+//@ requires ChanRecv <= ChanSent && len(c.keys) > 0 && c.keyRoundRobinIndex >= -1
 //@ ensures (ChanSent - ChanRecv) - (old(ChanSent) - old(ChanRecv)) == 0 || (ChanSent - ChanRecv) - (old(ChanSent) - old(ChanRecv)) == 1
 //@ ensures !(exists j :: 0 <= j && j < len(chainRequest(id).RequestedValidators) && chainRequest(id).RequestedValidators[j] == addrstr(c.validator)) ==> ChanSent == old(ChanSent)
 //@ ensures (ChanSent - ChanRecv) - (old(ChanSent) - old(ChanRecv)) == 1 ==> ChanLastMsg.msg.RequestID == id && ChanLastMsg.msg.Validator == addrstr(c.validator) && len(ChanLastMsg.msg.RawReports) == len(chainRequest(id).RawRequests)
@@ -93,7 +98,7 @@ package yoda
 // request seen by both must be reported once, by the sweep)
 //@ func handleTransaction
 //@ modifies ChanSent, ChanLast, ChanRecv, ChanLastMsg, RPCok, Count_handleRequest
-//@ requires ChanRecv <= ChanSent && len(c.keys) > 0
+//@ requires ChanRecv <= ChanSent && len(c.keys) > 0 && c.keyRoundRobinIndex >= -1
 //@ ensures forall r Int :: has(c.pendingRequests, r) && c.pendingRequests[r] ==> Count_handleRequest[r] == old(Count_handleRequest)[r]
-//@ loop 0: invariant ChanRecv <= ChanSent
+//@ loop 0: invariant ChanRecv <= ChanSent && c.keyRoundRobinIndex >= -1 && len(c.keys) > 0
 //@ loop 0: invariant forall r Int :: has(c.pendingRequests, r) && c.pendingRequests[r] ==> Count_handleRequest[r] == old(Count_handleRequest)[r]
